@@ -6,10 +6,12 @@ CONSTANTS
   KeyU <- MC_KeyU
   PatU <- MC_PatU
   ParentU <- MC_ParentU
-  MaxVer = 2
-  MaxAcq = 0
+  Clients_ = {"c1", "c2", "c3"}
+  LockKeys_ = {"l/1", "m/1"}
+  MaxVer = 1
+  MaxAcq = 3
   MaxSubs = 0
-  NeedConnect = FALSE
+  NeedConnect = TRUE
 CONSTRAINT Bound
-INVARIANTS C01Inv C05Inv CleanTrees NeverDown EdgeInv
+INVARIANTS C01Inv C06State C07State CleanTrees NeverDown EdgeInv
 CHECK_DEADLOCK FALSE
